@@ -298,3 +298,306 @@ Proof.
 Qed.
 
 End GenericBounds.
+
+(* ---- (B2) the loops: offsets inside the buffer, no panic, fuel sufficiency *)
+Section GenericLoops.
+Variable buf : list Z.
+Hypothesis Hb : bytes_ok buf.
+
+Local Notation ib := (inb buf).
+
+Definition sares_inb (rd : Z) (r : sares) : Prop :=
+  match r with SaOk rd' _ => rd <= rd' <= plen buf | SaErr => True | SaPanic => False end.
+
+(* found offset = cursor, not before the start, inside the buffer *)
+Definition sres_fwd (rd : Z) (r : sres) : Prop :=
+  match r with
+  | SFound start rd' => start = rd' /\ rd <= rd' <= plen buf
+  | SPanic => False
+  | _ => True
+  end.
+
+Ltac skip_at rd wt Hrd rd1 Ha :=
+  pose proof (askip_inb buf Hb rd wt Hrd) as Ha;
+  destruct (askip buf rd wt) as [rd1| |]; cbn [skres_inb] in Ha; [ | try exact I | contradiction].
+
+Lemma skip_all_packed_inb : forall f rd lim ewt cnt, ib rd -> sares_inb rd (skip_all_packed f buf rd lim ewt cnt).
+Proof.
+  induction f as [|f IH]; intros rd lim ewt cnt Hrd; cbn [skip_all_packed]; [exact I|].
+  destruct (rd <? lim); [|cbn [sares_inb]; unfold inb in *; lia].
+  skip_at rd ewt Hrd rd1 Ha.
+  assert (Hrd1 : ib rd1) by (unfold inb in *; lia).
+  pose proof (IH rd1 lim ewt (cnt + 1) Hrd1) as H.
+  destruct (skip_all_packed f buf rd1 lim ewt (cnt + 1)); cbn [sares_inb] in *; try assumption. lia.
+Qed.
+
+Lemma skip_all_unpacked_inb : forall f rd fnum cnt, ib rd -> sares_inb rd (skip_all_unpacked f buf rd fnum cnt).
+Proof.
+  induction f as [|f IH]; intros rd fnum cnt Hrd; cbn [skip_all_unpacked]; [exact I|].
+  destruct (rd <? plen buf); [|cbn [sares_inb]; unfold inb in *; lia].
+  destruct (ctag buf rd) as [[[num ewt] n]|] eqn:Et; [|exact I]. apply (ctag_inb buf Hb rd _ _ _ Hrd) in Et.
+  destruct (negb (num =? fnum)); [cbn [sares_inb]; unfold inb in *; lia|].
+  assert (Hrd0 : ib (rd + n)) by (unfold inb in *; lia).
+  skip_at (rd + n) ewt Hrd0 rd1 Ha.
+  assert (Hrd1 : ib rd1) by (unfold inb in *; lia).
+  pose proof (IH rd1 fnum (cnt + 1) Hrd1) as H.
+  destruct (skip_all_unpacked f buf rd1 fnum (cnt + 1)); cbn [sares_inb] in *; try assumption. lia.
+Qed.
+
+Theorem skip_all_elements_inb fx rd fnum packed ewt : ib rd ->
+  sares_inb rd (skip_all_elements fx buf rd fnum packed ewt).
+Proof.
+  intros Hrd. unfold skip_all_elements. destruct packed; [|apply skip_all_unpacked_inb; assumption].
+  destruct (ctag buf rd) as [[[num wt] n]|] eqn:Et; [|exact I]. apply (ctag_inb buf Hb rd _ _ _ Hrd) in Et.
+  assert (Hrd0 : ib (rd + n)) by (unfold inb in *; lia).
+  destruct (aread_length buf (rd + n)) as [[len rd0]|] eqn:El; [|exact I].
+  apply (aread_length_inb buf Hb _ _ _ Hrd0) in El.
+  assert (Hrd1 : ib rd0) by (unfold inb in *; lia).
+  destruct (f703 fx).
+  - destruct ((len <? 0) || (rd0 + len >? plen buf)); [exact I|].
+    pose proof (skip_all_packed_inb (S (length buf)) rd0 (rd0 + len) ewt 0 Hrd1) as H.
+    destruct (skip_all_packed (S (length buf)) buf rd0 (rd0 + len) ewt 0); cbn [sares_inb] in *; try assumption.
+    destruct (rd1 =? rd0 + len); cbn [sares_inb]; [lia | exact I].
+  - pose proof (skip_all_packed_inb (S (length buf)) rd0 (rd0 + len) 0 0 Hrd1) as H.
+    destruct (skip_all_packed (S (length buf)) buf rd0 (rd0 + len) 0 0); cbn [sares_inb] in *; try assumption. lia.
+Qed.
+
+Lemma search_field_id_inb : forall f rd id lim, ib rd -> sres_fwd rd (search_field_id f buf rd id lim).
+Proof.
+  induction f as [|f IH]; intros rd id lim Hrd; cbn [search_field_id]; [exact I|].
+  destruct (rd <? lim); [|exact I].
+  destruct (ctag buf rd) as [[[num wt] n]|] eqn:Et; [|exact I]. apply (ctag_inb buf Hb rd _ _ _ Hrd) in Et.
+  destruct (num =? id); [cbn [sres_fwd]; unfold inb in *; lia|].
+  assert (Hrd0 : ib (rd + n)) by (unfold inb in *; lia).
+  skip_at (rd + n) wt Hrd0 rd1 Ha.
+  assert (Hrd1 : ib rd1) by (unfold inb in *; lia).
+  pose proof (IH rd1 id lim Hrd1) as H.
+  destruct (search_field_id f buf rd1 id lim); cbn [sres_fwd] in *; try assumption. lia.
+Qed.
+
+Lemma search_index_packed_inb : forall f fx rd lim idx ewt cnt, ib rd ->
+  sres_fwd rd (search_index_packed f fx buf rd lim idx ewt cnt).
+Proof.
+  induction f as [|f IH]; intros fx rd lim idx ewt cnt Hrd; cbn [search_index_packed]; [exact I|].
+  destruct ((rd <? lim) && (cnt <? idx)).
+  - skip_at rd ewt Hrd rd1 Ha.
+    assert (Hrd1 : ib rd1) by (unfold inb in *; lia).
+    pose proof (IH fx rd1 lim idx ewt (cnt + 1) Hrd1) as H.
+    destruct (search_index_packed f fx buf rd1 lim idx ewt (cnt + 1)); cbn [sres_fwd] in *; try assumption. lia.
+  - destruct (f701 fx && (rd >=? lim)); [exact I|].
+    destruct (cnt <? idx); [exact I|]. cbn [sres_fwd]. unfold inb in *. lia.
+Qed.
+
+(* the unpacked index search: the cursor is always inside; the returned start offset is inside once defect 701
+   (index = length is "found") is repaired — as coded it can point up to one tag length beyond the buffer *)
+Definition sres_unpacked (fx : fixes) (r : sres) : Prop :=
+  match r with
+  | SFound start rd' => 0 <= rd' <= plen buf /\ 0 <= start <= plen buf + 10 /\ (f701 fx = true -> start <= plen buf)
+  | SPanic => False
+  | _ => True
+  end.
+
+Lemma search_index_unpacked_inb : forall f fx rd idx ewt fnum cnt result ex,
+  ib rd -> 0 <= result <= plen buf + 10 -> (idx <= cnt -> result <= plen buf) ->
+  sres_unpacked fx (search_index_unpacked f fx buf rd idx ewt fnum cnt result ex).
+Proof.
+  assert (Hfin : forall fx idx rd cnt result ex,
+    ib rd -> 0 <= result <= plen buf + 10 -> (idx <= cnt -> ex = true -> result <= plen buf) ->
+    sres_unpacked fx (if f701 fx && negb ex then SNotFound else if cnt <? idx then SNotFound else SFound result rd)).
+  { intros fx idx rd cnt result ex Hrd Hres Hc.
+    destruct (f701 fx) eqn:E7; destruct ex; cbn [andb negb]; try exact I;
+      (destruct (Z.ltb_spec cnt idx); [exact I|]); cbn [sres_unpacked]; unfold inb in *;
+      (split; [lia|]); (split; [lia|]); rewrite E7; intros HH; try discriminate HH; apply Hc; [lia | reflexivity]. }
+  induction f as [|f IH]; intros fx rd idx ewt fnum cnt result ex Hrd Hres Hc; cbn [search_index_unpacked]; [exact I|].
+  destruct ((rd <? plen buf) && (cnt <? idx)) eqn:Eloop; [|apply Hfin; auto].
+  apply andb_true_iff in Eloop. destruct Eloop as [_ Ecnt]. apply Z.ltb_lt in Ecnt.
+  skip_at rd ewt Hrd rd1 Ha.
+  assert (Hrd1 : ib rd1) by (unfold inb in *; lia).
+  cbv zeta.
+  destruct (rd1 <? plen buf); [|apply Hfin; auto; intros; discriminate].
+  destruct (ctag buf rd1) as [[[num wt] n]|] eqn:Et; [|exact I]. apply (ctag_inb buf Hb rd1 _ _ _ Hrd1) in Et.
+  destruct (negb (num =? fnum)); [apply Hfin; auto; intros; discriminate|].
+  destruct (Z.ltb_spec (cnt + 1) idx).
+  - apply IH; unfold inb in *; lia.
+  - apply IH; unfold inb in *; lia.
+Qed.
+
+Theorem search_index_inb fx rd idx ewt packed fnum :
+  ib rd ->
+  (f702 fx = true -> idx = 0 -> packed = false -> plen (varint_enc (fnum * 8 + ewt)) <= rd) ->
+  sres_unpacked fx (search_index fx buf rd idx ewt packed fnum).
+Proof.
+  intros Hrd H702. unfold search_index.
+  destruct (f701 fx && (idx <? 0)); [exact I|].
+  destruct packed.
+  - destruct (aread_length buf rd) as [[len rd0]|] eqn:El; [|exact I].
+    apply (aread_length_inb buf Hb _ _ _ Hrd) in El.
+    assert (Hrd0 : ib rd0) by (unfold inb in *; lia).
+    pose proof (search_index_packed_inb (S (length buf)) fx rd0 (rd0 + len) idx ewt 0 Hrd0) as H.
+    destruct (search_index_packed (S (length buf)) fx buf rd0 (rd0 + len) idx ewt 0);
+      cbn [sres_fwd sres_unpacked] in *; try assumption. unfold inb in *. intuition lia.
+  - cbv zeta. apply search_index_unpacked_inb; unfold inb in *; try lia.
+    destruct (f702 fx) eqn:E2; cbn [andb]; [|lia].
+    destruct (Z.eqb_spec idx 0); [|lia].
+    specialize (H702 eq_refl e eq_refl). unfold plen in *. lia.
+Qed.
+
+(* the key readers handed to search_key move the cursor forward inside the buffer *)
+Definition rdkey_ok (rdkey : Z -> option (bool * Z)) : Prop :=
+  forall r hit r', ib r -> rdkey r = Some (hit, r') -> r < r' <= plen buf.
+
+Lemma search_key_inb : forall f rdkey rd fnum, rdkey_ok rdkey -> ib rd ->
+  sres_fwd rd (search_key f buf rdkey rd fnum).
+Proof.
+  induction f as [|f IH]; intros rdkey rd fnum Hk Hrd; cbn [search_key]; [exact I|].
+  destruct (rd <? plen buf); [|exact I].
+  destruct (aread_length buf rd) as [[len rd1]|] eqn:El; [|exact I].
+  apply (aread_length_inb buf Hb _ _ _ Hrd) in El.
+  assert (Hrd1 : ib rd1) by (unfold inb in *; lia).
+  destruct (ctag buf rd1) as [[[num1 wt1] n1]|] eqn:Et1; [|exact I]. apply (ctag_inb buf Hb rd1 _ _ _ Hrd1) in Et1.
+  assert (Hrd1' : ib (rd1 + n1)) by (unfold inb in *; lia).
+  destruct (rdkey (rd1 + n1)) as [[hit rd2]|] eqn:Ek; [|exact I]. apply (Hk _ _ _ Hrd1') in Ek.
+  destruct hit; [cbn [sres_fwd]; lia|].
+  assert (Hrd2 : ib rd2) by (unfold inb in *; lia).
+  destruct (ctag buf rd2) as [[[num2 vwt] n2]|] eqn:Et2; [|exact I]. apply (ctag_inb buf Hb rd2 _ _ _ Hrd2) in Et2.
+  assert (Hrd2' : ib (rd2 + n2)) by (unfold inb in *; lia).
+  skip_at (rd2 + n2) vwt Hrd2' rd3 Ha.
+  destruct (rd3 >=? plen buf); [exact I|].
+  assert (Hrd3 : ib rd3) by (unfold inb in *; lia).
+  destruct (ctag buf rd3) as [[[num3 wt3] n3]|] eqn:Et3; [|exact I]. apply (ctag_inb buf Hb rd3 _ _ _ Hrd3) in Et3.
+  destruct (negb (num3 =? fnum)); [exact I|].
+  assert (Hrd3' : ib (rd3 + n3)) by (unfold inb in *; lia).
+  pose proof (IH rdkey (rd3 + n3) fnum Hk Hrd3') as H.
+  destruct (search_key f buf rdkey (rd3 + n3) fnum); cbn [sres_fwd] in *; try assumption. lia.
+Qed.
+
+Lemma rdkey_str_ok k : rdkey_ok (fun r => match aread_string buf r with
+                                           | Some (b, r') => Some (bytes_eqb b k, r') | None => None end).
+Proof.
+  intros r hit r' Hr. destruct (aread_string buf r) as [[b r1]|] eqn:E; [|discriminate].
+  intros HH; inversion HH; subst. apply (aread_string_inb buf Hb _ _ _ Hr) in E. lia.
+Qed.
+
+Lemma rdkey_int_ok kk k : rdkey_ok (fun r => match aread_int buf r kk with
+                                              | Some (x, r') => Some (x =? k, r') | None => None end).
+Proof.
+  intros r hit r' Hr. destruct (aread_int buf r kk) as [[x r1]|] eqn:E; [|discriminate].
+  intros HH; inversion HH; subst. apply (aread_int_inb buf Hb _ _ _ _ Hr) in E. lia.
+Qed.
+
+(* ---- fuel: every loop makes progress, so any fuel above (bytes left + 1) gives the same answer;
+   the definitions run them with S (length buf) *)
+Definition enough (f : nat) (rd : Z) : Prop := plen buf - rd + 1 <= Z.of_nat f.
+
+Lemma skip_all_packed_fuel : forall f f' rd lim ewt cnt,
+  wt_progress ewt -> ib rd -> enough f rd -> enough f' rd ->
+  skip_all_packed f buf rd lim ewt cnt = skip_all_packed f' buf rd lim ewt cnt.
+Proof.
+  unfold enough.
+  induction f as [|f IH]; intros f' rd lim ewt cnt Hw Hrd Hf Hf'; [unfold inb in *; lia|].
+  destruct f' as [|f']; [unfold inb in *; lia|]. cbn [skip_all_packed].
+  destruct (rd <? lim); [|reflexivity].
+  skip_at rd ewt Hrd rd1 Ha; [|reflexivity]. destruct Ha as [Ha Hp]. specialize (Hp Hw).
+  apply IH; [assumption | unfold inb in *; lia | lia | lia].
+Qed.
+
+Lemma skip_all_unpacked_fuel : forall f f' rd fnum cnt,
+  ib rd -> enough f rd -> enough f' rd ->
+  skip_all_unpacked f buf rd fnum cnt = skip_all_unpacked f' buf rd fnum cnt.
+Proof.
+  unfold enough.
+  induction f as [|f IH]; intros f' rd fnum cnt Hrd Hf Hf'; [unfold inb in *; lia|].
+  destruct f' as [|f']; [unfold inb in *; lia|]. cbn [skip_all_unpacked].
+  destruct (rd <? plen buf); [|reflexivity].
+  destruct (ctag buf rd) as [[[num ewt] n]|] eqn:Et; [|reflexivity]. apply (ctag_inb buf Hb rd _ _ _ Hrd) in Et.
+  destruct (negb (num =? fnum)); [reflexivity|].
+  assert (Hrd0 : ib (rd + n)) by (unfold inb in *; lia).
+  skip_at (rd + n) ewt Hrd0 rd1 Ha; [|reflexivity]. destruct Ha as [Ha _].
+  apply IH; [unfold inb in *; lia | lia | lia].
+Qed.
+
+Lemma search_field_id_fuel : forall f f' rd id lim,
+  ib rd -> enough f rd -> enough f' rd ->
+  search_field_id f buf rd id lim = search_field_id f' buf rd id lim.
+Proof.
+  unfold enough.
+  induction f as [|f IH]; intros f' rd id lim Hrd Hf Hf'; [unfold inb in *; lia|].
+  destruct f' as [|f']; [unfold inb in *; lia|]. cbn [search_field_id].
+  destruct (rd <? lim); [|reflexivity].
+  destruct (ctag buf rd) as [[[num wt] n]|] eqn:Et; [|reflexivity]. apply (ctag_inb buf Hb rd _ _ _ Hrd) in Et.
+  destruct (num =? id); [reflexivity|].
+  assert (Hrd0 : ib (rd + n)) by (unfold inb in *; lia).
+  skip_at (rd + n) wt Hrd0 rd1 Ha; [|reflexivity]. destruct Ha as [Ha _].
+  apply IH; [unfold inb in *; lia | lia | lia].
+Qed.
+
+Lemma search_index_packed_fuel : forall f f' fx rd lim idx ewt cnt,
+  wt_progress ewt -> ib rd -> enough f rd -> enough f' rd ->
+  search_index_packed f fx buf rd lim idx ewt cnt = search_index_packed f' fx buf rd lim idx ewt cnt.
+Proof.
+  unfold enough.
+  induction f as [|f IH]; intros f' fx rd lim idx ewt cnt Hw Hrd Hf Hf'; [unfold inb in *; lia|].
+  destruct f' as [|f']; [unfold inb in *; lia|]. cbn [search_index_packed].
+  destruct ((rd <? lim) && (cnt <? idx)); [|reflexivity].
+  skip_at rd ewt Hrd rd1 Ha; [|reflexivity]. destruct Ha as [Ha Hp]. specialize (Hp Hw).
+  apply IH; [assumption | unfold inb in *; lia | lia | lia].
+Qed.
+
+(* the unpacked search needs no hypothesis on the element wire type: the tag between two elements is progress;
+   one extra unit of fuel pays for the final call that only reports *)
+Lemma search_index_unpacked_fuel : forall f f' fx rd idx ewt fnum cnt result ex,
+  ib rd -> enough f rd -> enough f' rd ->
+  search_index_unpacked f fx buf rd idx ewt fnum cnt result ex =
+  search_index_unpacked f' fx buf rd idx ewt fnum cnt result ex.
+Proof.
+  unfold enough.
+  induction f as [|f IH]; intros f' fx rd idx ewt fnum cnt result ex Hrd Hf Hf'; [unfold inb in *; lia|].
+  destruct f' as [|f']; [unfold inb in *; lia|]. cbn [search_index_unpacked].
+  destruct ((rd <? plen buf) && (cnt <? idx)) eqn:Eloop; [|reflexivity].
+  apply andb_true_iff in Eloop. destruct Eloop as [Erd Ecnt]. apply Z.ltb_lt in Erd. apply Z.ltb_lt in Ecnt.
+  skip_at rd ewt Hrd rd1 Ha; [|reflexivity]. destruct Ha as [Ha _]. cbv zeta.
+  destruct (rd1 <? plen buf); [|reflexivity].
+  assert (Hrd1 : ib rd1) by (unfold inb in *; lia).
+  destruct (ctag buf rd1) as [[[num wt] n]|] eqn:Et; [|reflexivity]. apply (ctag_inb buf Hb rd1 _ _ _ Hrd1) in Et.
+  destruct (negb (num =? fnum)); [reflexivity|].
+  destruct (Z.ltb_spec (cnt + 1) idx) as [Hlt|Hge].
+  - apply IH; [unfold inb in *; lia | lia | lia].
+  - (* the element wanted has been reached: the next call reports without looping *)
+    destruct f as [|f]; [lia|]. destruct f' as [|f']; [lia|]. cbn [search_index_unpacked].
+    destruct (Z.ltb_spec (cnt + 1) idx); [lia|]. rewrite andb_false_r. reflexivity.
+Qed.
+
+Lemma search_key_fuel : forall f f' rdkey rd fnum,
+  rdkey_ok rdkey -> ib rd -> enough f rd -> enough f' rd ->
+  search_key f buf rdkey rd fnum = search_key f' buf rdkey rd fnum.
+Proof.
+  unfold enough.
+  induction f as [|f IH]; intros f' rdkey rd fnum Hk Hrd Hf Hf'; [unfold inb in *; lia|].
+  destruct f' as [|f']; [unfold inb in *; lia|]. cbn [search_key].
+  destruct (rd <? plen buf); [|reflexivity].
+  destruct (aread_length buf rd) as [[len rd1]|] eqn:El; [|reflexivity].
+  apply (aread_length_inb buf Hb _ _ _ Hrd) in El.
+  assert (Hrd1 : ib rd1) by (unfold inb in *; lia).
+  destruct (ctag buf rd1) as [[[num1 wt1] n1]|] eqn:Et1; [|reflexivity]. apply (ctag_inb buf Hb rd1 _ _ _ Hrd1) in Et1.
+  assert (Hrd1' : ib (rd1 + n1)) by (unfold inb in *; lia).
+  destruct (rdkey (rd1 + n1)) as [[hit rd2]|] eqn:Ek; [|reflexivity]. apply (Hk _ _ _ Hrd1') in Ek.
+  destruct hit; [reflexivity|].
+  assert (Hrd2 : ib rd2) by (unfold inb in *; lia).
+  destruct (ctag buf rd2) as [[[num2 vwt] n2]|] eqn:Et2; [|reflexivity]. apply (ctag_inb buf Hb rd2 _ _ _ Hrd2) in Et2.
+  assert (Hrd2' : ib (rd2 + n2)) by (unfold inb in *; lia).
+  skip_at (rd2 + n2) vwt Hrd2' rd3 Ha; [|reflexivity]. destruct Ha as [Ha _].
+  destruct (rd3 >=? plen buf); [reflexivity|].
+  assert (Hrd3 : ib rd3) by (unfold inb in *; lia).
+  destruct (ctag buf rd3) as [[[num3 wt3] n3]|] eqn:Et3; [|reflexivity]. apply (ctag_inb buf Hb rd3 _ _ _ Hrd3) in Et3.
+  destruct (negb (num3 =? fnum)); [reflexivity|].
+  apply IH; [assumption | unfold inb in *; lia | lia | lia].
+Qed.
+
+(* the fuel the definitions use, S (length buf), is enough from every position inside the buffer *)
+Lemma enough_default rd : ib rd -> enough (S (length buf)) rd.
+Proof. unfold enough, inb, plen. lia. Qed.
+
+Lemma enough_more f rd : ib rd -> (length buf < f)%nat -> enough f rd.
+Proof. unfold enough, inb, plen. lia. Qed.
+
+End GenericLoops.
